@@ -115,6 +115,26 @@ def run(chk, replay=None):
                 else:
                     add_tails('nbd', n, float(r.quantile[0]), float(r.quantile[1]), {'mean': mean, 'var': var})
                 chk.nontrivial('nb|%s|%d|%s' % (total, n, vf))
+    # the same forecast object evaluated, rescaled and evaluated again: the law must follow the current total
+    for total in (0.5, 6.0, 250.0):
+        for n in (0, 3, 9):
+            fc = forecast_with_total(total)
+            cat = catalog_with(n)
+            for step, factor in enumerate((None, 2.0, 0.25, 1.0, 3.0)):
+                if factor is not None:
+                    fc.scale(factor)
+                mean_now = total * (factor if factor is not None else 1.0)
+                _ = float(fc.event_count)           # reading the total must not freeze it
+                r = guarded(pe.number_test, fc, cat)
+                r2 = guarded(be.negative_binomial_number_test, fc, cat, 4.0 * max(mean_now, 1.0) + 1.0)
+                chk.count(2)
+                exact_mean = float(numpy.sum(numpy.asarray(fc.data, dtype=float)))
+                if isinstance(r, Raised) or isinstance(r2, Raised):
+                    chk.violation('rescaled:raised', {'total': total, 'n': n, 'factor': factor, 'err': repr(r) + repr(r2)})
+                    continue
+                add_tails('poisson', n, float(r.quantile[0]), float(r.quantile[1]), {'mean': exact_mean, 'scale': factor, 'sequence_step': step})
+                add_tails('nbd', n, float(r2.quantile[0]), float(r2.quantile[1]), {'mean': exact_mean, 'var': 4.0 * max(mean_now, 1.0) + 1.0, 'sequence_step': step})
+                chk.nontrivial('seq|%s|%d|%d' % (total, n, step))
     # large counts around the mean
     for total in (30.0, 1e3, 1e5):
         for n in sorted(set(int(total + k * total ** 0.5) for k in (-6, -2, -1, 0, 1, 2, 6)) | {int(total) + 1}):
